@@ -83,7 +83,7 @@ def run(ctx: Ctx):
     no_diversion(ctx)
     dropoff(ctx)
     rules.rule_default_update(ctx, "D5", require_perform_update=True)
-    cancellation(ctx)
+    cancellation(ctx, timing=False)
     ctx.floor("WMC.callers", 8)
     ctx.floor("CMP", 2)
     ctx.not_decided += ["the count identities over whole runs (implied by the decided clauses, not summed)",
@@ -260,7 +260,10 @@ def dropoff(ctx: Ctx):
     c07_dropoff(ctx)
 
 
-def cancellation(ctx: Ctx):
+def cancellation(ctx: Ctx, timing: bool = True):
+    """timing=True (C11): removal iff now >= departure + timeout, over every waiting request. timing=False (C03): only
+    what 'resolved exactly once' needs — every path either keeps the state or returns remove_request's state for this
+    request, and the fold threads its accumulator starting from the given state."""
     repo = ctx.repo
     outer = repo.func(CAN, "CancelRequests.update")
     fn = repo.func(CAN, "CancelRequests.update._remove_from_sim")
@@ -282,20 +285,25 @@ def cancellation(ctx: Ctx):
         if g["now"] >= g["T"]:
             return None  # remove, unless remove_request itself failed (free atoms): checked below
         return "keep"
-    bad = cmp.compare_table(rows, spec)
-    late = [r for r in rows if r[0]["now"] >= r[0]["T"] and r[2] not in ("remove", "keep-after-failed-remove")]
-    ctx.check(not bad and not late, "D6", "CMP.cancel", "a waiting request is removed iff now >= departure + timeout", fn,
-              why_ok=f"{len(rows)} assignments agree", why_bad=f"differs on {(bad or late)[:3]}", construct="_remove_from_sim:table",
-              witness={"bad": [str(b) for b in (bad or late)[:6]]})
+    if timing:
+        bad = cmp.compare_table(rows, spec)
+        late = [r for r in rows if r[0]["now"] >= r[0]["T"] and r[2] not in ("remove", "keep-after-failed-remove")]
+        ctx.check(not bad and not late, "D6", "CMP.cancel", "a waiting request is removed iff now >= departure + timeout", fn,
+                  why_ok=f"{len(rows)} assignments agree", why_bad=f"differs on {(bad or late)[:3]}", construct="_remove_from_sim:table",
+                  witness={"bad": [str(b) for b in (bad or late)[:6]]})
+    else:
+        odd = sorted({r[2] for r in rows if r[2] not in ("keep", "remove", "keep-after-failed-remove")})
+        ctx.check(not odd, "D6", "CMP.cancel", "every path of the cancel step keeps the state or returns remove_request's state for this very request", fn,
+                  why_ok=f"{len(rows)} assignments, outcomes keep/remove only", why_bad=f"other outcomes {odd[:3]}", construct="_remove_from_sim:outcomes")
     rules.rule_fold_threading(ctx, "D6", outer, 1)
     # the fold ranges over every request id of the state
     ok = False
     for p in flow.paths(outer.node):
         if p.kind == "return":
             for c in flow.calls_in(p.value, "reduce"):
-                ok = len(c.args) >= 3 and flow.dump(c.args[0]) == "_remove_from_sim" and flow.dump(c.args[1]) == f"{outer.params[1]}.get_request_ids()" \
-                    and flow.dump(c.args[2]) == outer.params[1]
-    ctx.check(ok, "D6", "CMP.cancel", "the cancel fold visits every request id of the state, starting from that state", outer,
+                ok = len(c.args) >= 3 and flow.dump(c.args[0]) == "_remove_from_sim" and flow.dump(c.args[2]) == outer.params[1] \
+                    and (not timing or flow.dump(c.args[1]) == f"{outer.params[1]}.get_request_ids()")
+    ctx.check(ok, "D6", "CMP.cancel", "the cancel fold " + ("visits every request id of the state, " if timing else "") + "starts from the state it was given", outer,
               why_bad="fold shape changed", construct="CancelRequests.update:fold")
 
 
@@ -306,7 +314,8 @@ def selftest():
         V("exit-always", ST, "        if len(self.route) == 0:\n            return None, sim\n        else:\n            return None, None", "        if len(self.route) >= 0:\n            return None, sim\n        else:\n            return None, None", rule="CMP.no-diversion"),
         V("exit-idle-allowed", ST, "        if len(self.route) == 0:\n            return None, sim", "        if len(self.route) == 0 or next_state.vehicle_state_type == VehicleStateType.IDLE:\n            return None, sim", rule="CMP.no-diversion"),
         V("cancel-stale-state", CAN, "                ) = simulation_state_ops.remove_request(sim, request_id)", "                ) = simulation_state_ops.remove_request(simulation_state, request_id)", rule="DU.fold-threading"),
-        V("cancel-late", CAN, "            if sim.sim_time < this_request_cancel_time:", "            if sim.sim_time <= this_request_cancel_time:", rule="CMP.cancel"),
+        V("cancel-returns-other-state", CAN, "                    env.reporter.file_report(_gen_report(request_id, sim))\n                    return updated_sim", "                    env.reporter.file_report(_gen_report(request_id, sim))\n                    return simulation_state", rule="CMP.cancel"),
+        V("twin-cancel-late-is-c11s", CAN, "            if sim.sim_time < this_request_cancel_time:", "            if sim.sim_time <= this_request_cancel_time:", kind="twin"),
         V("new-consumer", "nrel/hive/state/vehicle_state/dispatch_trip.py", "            return None, idle_next_state", "            _ = simulation_state_ops.remove_request(sim, self.request_id)\n            return None, idle_next_state", rule="WMC.callers"),
         V("pickup-before-remove-returned", SOPS, "            return simulation_state_ops.remove_request(maybe_sim_with_vehicle, request_id)", "            simulation_state_ops.remove_request(maybe_sim_with_vehicle, request_id)\n            return None, maybe_sim_with_vehicle", rule="DU"),
         V("default-update-reupdates", VSF, "                        return updated_next_state._perform_update(updated_sim, env)", "                        return updated_next_state.update(updated_sim, env)", rule="ORD.terminal"),
@@ -327,5 +336,5 @@ def selftest():
 def _auto():
     from ..loader import Repo
     from .. import autovariants as av
-    return av.compare_variants(Repo(), [(ST, "ServicingTrip.exit"), (ST, "ServicingTrip._has_reached_terminal_state_condition"), (CAN, "CancelRequests.update._remove_from_sim")])
+    return av.compare_variants(Repo(), [(ST, "ServicingTrip.exit"), (ST, "ServicingTrip._has_reached_terminal_state_condition")])
 
